@@ -79,9 +79,10 @@ CreateVerdict(e, legal, rej, onSuccess) ==
 
 EncCreate(e) ==
   CreateVerdict(e, EncCreateOK(e.Fs, e.ch, e.app), {BAD_ARG},
-    LET S0 == SFromG(e.g, e.ch) IN
-    IF ~(EncSignalSane(e.g) /\ e.g.app = e.app /\ e.g.sr = e.Fs /\ DomainsHold(S0)
-         /\ e.g.br = ResolveBitrate(S0, 0))
+    \* the default bitrate is OPUS_AUTO (drift if it is not: then the reported number is taken)
+    LET S1 == SFromG(e.g, e.ch)
+        S0 == IF e.g.br = ResolveBitrate(S1, 0) THEN S1 ELSE [S1 EXCEPT !.bitrate = e.g.br] IN
+    IF ~(EncSignalSane(e.g) /\ e.g.app = e.app /\ e.g.sr = e.Fs /\ DomainsHold(S0))
     THEN Rej(<<"CreateReadBack", e.g>>)
     ELSE GoodD([o |-> "enc", S |-> S0, G |-> [InitG EXCEPT !.voiceRatio = e.g.vr]],
                IF S0 = InitS(e.Fs, e.ch, e.app) /\ e.g.first = 1 /\ e.g.pfs = 0 THEN <<>>
@@ -213,12 +214,13 @@ MsBitrateSum(e) ==
 MsEncCreate(e, kind) ==
   CreateVerdict(e, MsEncLegal(e), {BAD_ARG, UNIMPLEMENTED, ALLOC_FAIL},
     LET n == Len(e.ss)
-        SS == [i \in 1..n |-> SFromG(e.ss[i], StreamCh(e, i))]
+        SS == [i \in 1..n |-> LET S1 == SFromG(e.ss[i], StreamCh(e, i)) IN
+                                 IF e.ss[i].br = ResolveBitrate(S1, 0) THEN S1 ELSE [S1 EXCEPT !.bitrate = e.ss[i].br]]
         GG == [i \in 1..n |-> [InitG EXCEPT !.voiceRatio = e.ss[i].vr]]
         M == [bitrate |-> OPUS_AUTO, frameDuration |-> e.m["dur"][1]] IN
     IF ~(/\ n = e.streams /\ n >= 1
          /\ \A i \in 1..n : /\ EncSignalSane(e.ss[i]) /\ e.ss[i].app = e.app /\ e.ss[i].sr = e.Fs
-                            /\ DomainsHold(SS[i]) /\ e.ss[i].br = ResolveBitrate(SS[i], 0)
+                            /\ DomainsHold(SS[i])
          /\ M.frameDuration \in DurSet /\ MsForward(e, SS, GG, M))
     THEN Rej(<<"CreateReadBack", e.m>>)
     ELSE GoodD([o |-> kind, SS |-> SS, GG |-> GG, M |-> M, fam |-> e.fam, coupled |-> e.coupled],
@@ -269,7 +271,8 @@ MsEncEvent(s, e) ==
              GG2 == [i \in 1..n |-> [s.GG[i] EXCEPT !.started = TRUE, !.first = (e.ss[i].first = 1),
                                                    !.pfs = e.ss[i].pfs, !.voiceRatio = e.ss[i].vr]]
              d == MsStreamsCheck("SettingsUntouched", s.SS, GG2, e, free)
-             SS2 == [i \in 1..n |-> [s.SS[i] EXCEPT !.bitrate = e.ss[i].br,
+             \* the rate the stream was given (kept if the getter still resolves the old setting)
+             SS2 == [i \in 1..n |-> [s.SS[i] EXCEPT !.bitrate = IF e.ss[i].br = ResolveBitrate(s.SS[i], GG2[i].pfs) THEN @ ELSE e.ss[i].br,
                                         !.forceChannels = IF "fc" \in free THEN e.ss[i].fc ELSE @,
                                         !.forcedMode = IF "fm" \in free THEN e.ss[i].fm ELSE @]] IN
          IF d # <<>> THEN Rej(d)
@@ -344,17 +347,17 @@ Step ==
   /\ LET e == Tr[l] IN
      IF skip /\ e.k # "create"
      THEN l' = l + 1 /\ UNCHANGED <<st, skip>>
-     ELSE LET v == Verdict(st, e) IN
+     ELSE \E v \in {Verdict(st, e)} :      \* (a bound variable is evaluated once; a LET would be re-evaluated per use)
           /\ l' = l + 1
           /\ IF v.ok
              THEN /\ st' = v.st /\ skip' = FALSE /\ Bump(v.cnt)
-                  /\ (v.drift = <<>> \/ PrintT(<<"DRIFT", l, ToString(v.drift)>>))
+                  /\ (v.drift = <<>> \/ PrintT("DRIFT " \o ToString(l) \o " " \o ToString(v.drift)))
              ELSE /\ st' = None /\ skip' = TRUE
-                  /\ PrintT(<<"REJECTED_AT", l, ToString(v.why)>>)
-Done == l > NEv /\ UNCHANGED <<l, st, skip>> /\ PrintT(<<"COUNTS", ToString([i \in 1..NCnt |-> TLCGet(i)])>>)
+                  /\ PrintT("REJECTED_AT " \o ToString(l) \o " " \o ToString(v.why))
+Done == l > NEv /\ UNCHANGED <<l, st, skip>> /\ PrintT("COUNTS " \o ToString([i \in 1..NCnt |-> TLCGet(i)]))
 Next == Step \/ Done
 Spec == Init /\ [][Next]_<<l, st, skip>>
 
 \* the whole trace was consumed
-Post == TLCGet("stats").diameter >= NEv + 1 \/ (PrintT(<<"TRUNCATED_AT", TLCGet("stats").diameter>>) /\ FALSE)
+Post == TLCGet("stats").diameter >= NEv + 1 \/ (PrintT("TRUNCATED_AT " \o ToString(TLCGet("stats").diameter)) /\ FALSE)
 =============================================================================
